@@ -623,3 +623,198 @@ func zeroMappedSum(v ssa.Value) (sum ssa.Value, value ssa.Value, ok bool) {
 	}
 	return sum, value, true
 }
+
+// ruleQueueFailureIsFinal: a queue whose refill failed does not hand out what the failed read left behind.
+func ruleQueueFailureIsFinal(r *Report, rh string) {
+	if _, done := r.RuleText[rh]; !done {
+		r.Rule(rh, 1, "after a refill of the merge heap has failed, PriorityQueue.Next keeps returning that error: the element a failed read left at the root is never handed out as a regular element")
+	}
+	fn := r.P.Func("pq.PriorityQueue.Next")
+	if fn == nil || fn.Blocks == nil {
+		return
+	}
+	fn = genericBody(fn)
+	key := rh + "/pq.PriorityQueue.Next/failure-is-final"
+	var refill []Site
+	eachInstr(fn, func(s Site) {
+		if c, ok := s.Instr.(*ssa.Call); ok {
+			if sc := c.Call.StaticCallee(); sc != nil && strings.HasSuffix(FuncKey(genericBody(sc)), "PriorityQueue.fillNext") {
+				refill = append(refill, s)
+			}
+		}
+	})
+	if len(refill) == 0 || len(fn.Params) == 0 {
+		r.Unk(rh, key, fn.Pos(), "the refill of the root was not recognised")
+		return
+	}
+	recv := fn.Params[0]
+	// (1) the failing exit of the refill parks the error in a field of the queue
+	field := ""
+	for _, rf := range refill {
+		al := errAliases(rf)
+		car := errCarriers(fn, func(v ssa.Value) bool { return al[v] })
+		eachInstr(fn, func(s Site) {
+			st, ok := s.Instr.(*ssa.Store)
+			if !ok || !(al[st.Val] || car[st.Val] || al[stripIface(st.Val)] || car[stripIface(st.Val)]) {
+				return
+			}
+			if fa, isF := st.Addr.(*ssa.FieldAddr); isF && paramOrigin(fa.X) == recv && isErrorType(st.Val.Type()) {
+				field = refField(fa.X.Type(), fa.Field)
+			}
+		})
+	}
+	// (2) and Next tests that field before it touches the heap, returning it
+	tested := false
+	if field != "" {
+		for _, b := range liveBlocks(fn) {
+			v, _, nonNil, ok := nilTest(b)
+			if !ok {
+				continue
+			}
+			if _, f, base, isF := loadOfField(v); !isF || f != field || paramOrigin(base) != recv {
+				continue
+			}
+			if endsInFailingReturn(nonNil) && dominates(b, refill[0].Block) {
+				tested = true
+			}
+		}
+	}
+	switch {
+	case field == "":
+		r.Bad(rh, key, refill[0].Pos(), "when the refill of the root fails, Next returns the error but keeps no record of it: the element that was taken is lost and the root holds whatever the failed read returned — the next call hands that out as a regular element (a table with a damaged value under verify-on-read, scanned through the stacked reader: the checksum error once, then the damaged value with a nil error, and the key in front of it is missing)")
+	case !tested:
+		r.Bad(rh, key, refill[0].Pos(), "the refill's failure is stored in "+field+" but Next does not return it before it reads the heap again")
+	default:
+		r.OK(rh, key, refill[0].Pos(), "a failed refill is remembered in "+field+" and every later Next returns it")
+	}
+}
+
+// ruleMapLoaderLongKeys: keys longer than the mapper's width, stored and probed.
+func ruleMapLoaderLongKeys(r *Report) {
+	const rule = "map-lookup-verified"
+	ld := r.P.Func("sstables.MapKeyIndexLoader.Load")
+	get := r.P.Func("sstables.MapKeyIndex.Get")
+	if ld == nil || get == nil || ld.Blocks == nil || get.Blocks == nil {
+		return
+	}
+	ld, get = genericBody(ld), genericBody(get)
+	isMaxLen := func(x ssa.Value) bool {
+		c, ok := x.(*ssa.Call)
+		return ok && c.Call.IsInvoke() && c.Call.Method.Name() == "MaxKeyLength"
+	}
+	// lenGuarded: the site is reached only over the "fits" edge of a comparison with MaxKeyLength (or over the "not a
+	// bounded mapper" edge of the type assertion in front of it); skip is the other side of that comparison
+	lenGuarded := func(fn *ssa.Function, site Site) (guard *ssa.BasicBlock, skip *ssa.BasicBlock) {
+		back := map[Edge]bool{}
+		for _, b := range liveBlocks(fn) {
+			for _, su := range b.Succs {
+				if dominates(su, b) {
+					back[Edge{b, su}] = true
+				}
+			}
+		}
+		removed := map[Edge]bool{}
+		for e := range back {
+			removed[e] = true
+		}
+		for _, b := range liveBlocks(fn) {
+			cnd, tS, fS, _, _, ok := effCond(b)
+			if !ok {
+				continue
+			}
+			if valueDependsOn(cnd, isMaxLen) {
+				rt, rf := reachFrom(tS, back)[site.Block], reachFrom(fS, back)[site.Block]
+				if rt != rf {
+					guard = b
+					if rt {
+						removed[Edge{b, tS}] = true
+						skip = fS
+					} else {
+						removed[Edge{b, fS}] = true
+						skip = tS
+					}
+				}
+				continue
+			}
+			// `m, ok := mapper.(boundedKeyMapper)`: without a bound there is nothing to test
+			if ex, isE := cnd.(*ssa.Extract); isE && ex.Index == 1 {
+				if ta, isT := ex.Tuple.(*ssa.TypeAssert); isT && ta.CommaOk {
+					removed[Edge{b, fS}] = true
+				}
+			}
+		}
+		if guard == nil || reachFrom(fn.Blocks[0], removed)[site.Block] {
+			return nil, nil
+		}
+		return guard, skip
+	}
+	key := rule + "/sstables.MapKeyIndexLoader.Load/stored-key-length-guarded"
+	var maps []Site
+	eachInstr(ld, func(s Site) {
+		if c, ok := s.Instr.(*ssa.Call); ok && c.Call.IsInvoke() && c.Call.Method.Name() == "MapBytes" {
+			maps = append(maps, s)
+		}
+	})
+	if len(maps) == 0 {
+		r.Unk(rule, key, ld.Pos(), "the loader does not map keys")
+		return
+	}
+	guarded := true
+	for _, m := range maps {
+		if g, _ := lenGuarded(ld, m); g == nil {
+			guarded = false
+		}
+	}
+	if guarded {
+		r.OK(rule, key, maps[0].Pos(), "a stored key is mapped only behind a test of its length against the mapper's width")
+	} else {
+		r.Bad(rule, key, maps[0].Pos(), "every stored key is handed to the mapper, which panics on a key longer than its width: a table with one 21 byte key cannot be opened with MapKeyIndexLoader[[20]byte] (NewSSTableReader panics), while every other loader reads it")
+	}
+	// keys that are too long for the map live in the slice only: a probe of that length has to be searched there
+	k2 := rule + "/sstables.MapKeyIndex.Get/long-probe-searched"
+	var probes []Site
+	eachInstr(get, func(s Site) {
+		if c, ok := s.Instr.(*ssa.Call); ok && c.Call.IsInvoke() && c.Call.Method.Name() == "MapBytes" {
+			probes = append(probes, s)
+		}
+	})
+	if len(probes) == 0 || !guarded {
+		return
+	}
+	_, skip := lenGuarded(get, probes[0])
+	if skip == nil {
+		return // probe-length-guarded reports the missing test
+	}
+	searched := false
+	for b := range reachFrom(skip, map[Edge]bool{}) {
+		if reachFrom(b, map[Edge]bool{})[probes[0].Block] {
+			continue
+		}
+		for _, in := range b.Instrs {
+			if c, ok := in.(*ssa.Call); ok && c.Call.StaticCallee() != nil && strings.HasSuffix(FuncKey(c.Call.StaticCallee()), "SliceKeyIndex.Get") {
+				searched = true
+			}
+		}
+	}
+	if searched {
+		r.OK(rule, k2, probes[0].Pos(), "a probe that is too long for the mapper is searched in the slice index")
+	} else {
+		r.Bad(rule, k2, probes[0].Pos(), "the loader keeps keys that are longer than the mapper's width in the slice only, but Get answers \"absent\" for every probe of that length without searching the slice: a written key is reported absent")
+	}
+}
+
+// reachesWithout: from b a return is reachable without passing through blk.
+func reachesWithout(b, blk *ssa.BasicBlock) bool {
+	removed := map[Edge]bool{}
+	for _, p := range blk.Preds {
+		removed[Edge{p, blk}] = true
+	}
+	for x := range reachFrom(b, removed) {
+		if len(x.Instrs) > 0 {
+			if _, isR := x.Instrs[len(x.Instrs)-1].(*ssa.Return); isR && x != blk {
+				return true
+			}
+		}
+	}
+	return false
+}
